@@ -130,3 +130,26 @@ func TestRefusedCompletionLeavesNoVersion(t *testing.T) {
 		t.Errorf("the refused completion (%d) changed the number of versions of the key from %d to %d", c.Status, before, after)
 	}
 }
+
+// A refused upload leaves none of its bytes behind. The first upload into a bucket (and every upload on a file system
+// without O_TMPFILE) is received into a named temporary file below .sgwtmp; when the upload was refused the file stayed
+// there with the refused bytes (and, see TestPartFileIsNotAnObject, could be read through the API).
+func TestRefusedUploadLeavesNoTemporaryFile(t *testing.T) {
+	g := gwtest.Start(t, gwtest.Options{})
+	g.MustStatus(g.Put(g.RootC, "/bkt", nil, nil), 200, "create bucket")
+	body := []byte(strings.Repeat("refused bytes ", 300))
+	r := g.Put(g.RootC, "/bkt/obj", body, map[string]string{"Content-Md5": "1B2M2Y8AsgTpgAmY7PhCfg=="}) // the MD5 of the empty string
+	if r.Status/100 == 2 {
+		t.Fatalf("upload with the wrong Content-MD5 was acknowledged: %v", r)
+	}
+	var left []string
+	filepath.Walk(filepath.Join(g.Root, "bkt"), func(p string, fi os.FileInfo, err error) error {
+		if err == nil && !fi.IsDir() {
+			left = append(left, fmt.Sprintf("%s (%d bytes)", strings.TrimPrefix(p, g.Root), fi.Size()))
+		}
+		return nil
+	})
+	if len(left) != 0 {
+		t.Errorf("after the refused upload the bucket directory holds %v", left)
+	}
+}
